@@ -156,7 +156,7 @@ func c13Occurrence(c *vrep.Ctx) {
 			// a long value and a second registered value that differs from it in one character of one
 			// token (confidence of the near-duplicate 0.99+); only the first occurs verbatim; the
 			// near-duplicate's name sorts before or after the verbatim value's
-			pat := small[r.Choose(c.Pick(4, len(small)), "pattern")]
+			pat := small[r.Choose(c.Pick(4, 12), "pattern")]
 			n := []int{40, 80, 400}[r.Choose(3, "length")]
 			for i := 0; i < n; i++ {
 				k1.toks = append(k1.toks, pat.toks[i%len(pat.toks)]+alpha[(i/len(pat.toks))%2])
